@@ -89,7 +89,7 @@ type MessageVerifHi struct {
 	Y int16
 }
 
-func (*MessageVerifHi) GetID() uint32 { return 300 }
+func (*MessageVerifHi) GetID() uint32 { return 70000 } // 0x011170: all three id bytes matter (v1 cannot carry it)
 
 // A non-standard message with id 0 (for the "dialect lacks the standard heartbeat" case).
 type MessageOddZero struct {
